@@ -142,43 +142,43 @@ pub mod generic {
 // vector loop and the overlapping tail. Two/Three: LOOP_SIZE 8, len 4..=24.
 inst!(g4_one_find, [props=C01+C05+C14 tier=quick cfg=x86std t=900 role=generic-4lane-find], 7,
     generic::find::<4, 43>(1, false, 40));
-inst!(g4_two_find, [props=C01+C05+C14 tier=quick cfg=x86std t=900 role=generic-4lane-find], 7,
+inst!(g4_two_find, [props=C01 xprops=C05+C14 tier=quick cfg=x86std t=900 role=generic-4lane-find], 7,
     generic::find::<4, 27>(2, false, 24));
-inst!(g4_three_find, [props=C01+C05+C14 tier=quick cfg=x86std t=900 role=generic-4lane-find], 7,
+inst!(g4_three_find, [props=C01 xprops=C05+C14 tier=quick cfg=x86std t=900 role=generic-4lane-find], 7,
     generic::find::<4, 27>(3, false, 24));
-inst!(g4_one_rfind, [props=C02+C05+C14 tier=quick cfg=x86std t=900 role=generic-4lane-rfind], 7,
+inst!(g4_one_rfind, [props=C02 xprops=C05+C14 tier=quick cfg=x86std t=900 role=generic-4lane-rfind], 7,
     generic::find::<4, 43>(1, true, 40));
-inst!(g4_two_rfind, [props=C02+C05+C14 tier=quick cfg=x86std t=900 role=generic-4lane-rfind], 7,
+inst!(g4_two_rfind, [props=C02 xprops=C05+C14 tier=quick cfg=x86std t=900 role=generic-4lane-rfind], 7,
     generic::find::<4, 27>(2, true, 24));
-inst!(g4_three_rfind, [props=C02+C05+C14 tier=quick cfg=x86std t=900 role=generic-4lane-rfind], 7,
+inst!(g4_three_rfind, [props=C02+C05 xprops=C14 tier=quick cfg=x86std t=900 role=generic-4lane-rfind], 7,
     generic::find::<4, 27>(3, true, 24));
 inst!(g4_one_count, [props=C07+C05+C14 tier=quick cfg=x86std t=900 role=generic-4lane-count], 41,
     generic::count::<4, 43>(40));
 
 // 2 lanes and 8 lanes (thorough).
-inst!(g2_one_find, [props=C01+C05+C14 tier=thorough cfg=x86std t=1800 role=generic-2lane-find], 7,
+inst!(g2_one_find, [props=C01 xprops=C05+C14 tier=thorough cfg=x86std t=1800 role=generic-2lane-find], 7,
     generic::find::<2, 21>(1, false, 20));
-inst!(g2_one_rfind, [props=C02+C05+C14 tier=thorough cfg=x86std t=1800 role=generic-2lane-rfind], 7,
+inst!(g2_one_rfind, [props=C02 xprops=C05+C14 tier=thorough cfg=x86std t=1800 role=generic-2lane-rfind], 7,
     generic::find::<2, 21>(1, true, 20));
-inst!(g2_three_find, [props=C01+C05+C14 tier=thorough cfg=x86std t=1800 role=generic-2lane-find], 8,
+inst!(g2_three_find, [props=C01 xprops=C05+C14 tier=thorough cfg=x86std t=1800 role=generic-2lane-find], 8,
     generic::find::<2, 13>(3, false, 12));
-inst!(g2_three_rfind, [props=C02+C05+C14 tier=thorough cfg=x86std t=1800 role=generic-2lane-rfind], 8,
+inst!(g2_three_rfind, [props=C02 xprops=C05+C14 tier=thorough cfg=x86std t=1800 role=generic-2lane-rfind], 8,
     generic::find::<2, 13>(3, true, 12));
-inst!(g2_one_count, [props=C07+C05+C14 tier=thorough cfg=x86std t=1800 role=generic-2lane-count], 21,
+inst!(g2_one_count, [props=C07 xprops=C05+C14 tier=thorough cfg=x86std t=1800 role=generic-2lane-count], 21,
     generic::count::<2, 21>(20));
-inst!(g8_one_find, [props=C01+C05+C14 tier=thorough cfg=x86std t=3600 role=generic-8lane-find], 10,
+inst!(g8_one_find, [props=C01 xprops=C05+C14 tier=thorough cfg=x86std t=3600 role=generic-8lane-find], 10,
     generic::find::<8, 87>(1, false, 80));
-inst!(g8_two_find, [props=C01+C05+C14 tier=thorough cfg=x86std t=3600 role=generic-8lane-find], 10,
+inst!(g8_two_find, [props=C01 xprops=C05+C14 tier=thorough cfg=x86std t=3600 role=generic-8lane-find], 10,
     generic::find::<8, 55>(2, false, 48));
-inst!(g8_three_find, [props=C01+C05+C14 tier=thorough cfg=x86std t=3600 role=generic-8lane-find], 10,
+inst!(g8_three_find, [props=C01 xprops=C05+C14 tier=thorough cfg=x86std t=3600 role=generic-8lane-find], 10,
     generic::find::<8, 55>(3, false, 48));
-inst!(g8_one_rfind, [props=C02+C05+C14 tier=thorough cfg=x86std t=3600 role=generic-8lane-rfind], 10,
+inst!(g8_one_rfind, [props=C02 xprops=C05+C14 tier=thorough cfg=x86std t=3600 role=generic-8lane-rfind], 10,
     generic::find::<8, 87>(1, true, 80));
-inst!(g8_two_rfind, [props=C02+C05+C14 tier=thorough cfg=x86std t=3600 role=generic-8lane-rfind], 10,
+inst!(g8_two_rfind, [props=C02 xprops=C05+C14 tier=thorough cfg=x86std t=3600 role=generic-8lane-rfind], 10,
     generic::find::<8, 55>(2, true, 48));
-inst!(g8_three_rfind, [props=C02+C05+C14 tier=thorough cfg=x86std t=3600 role=generic-8lane-rfind], 10,
+inst!(g8_three_rfind, [props=C02 xprops=C05+C14 tier=thorough cfg=x86std t=3600 role=generic-8lane-rfind], 10,
     generic::find::<8, 55>(3, true, 48));
-inst!(g8_one_count, [props=C07+C05+C14 tier=thorough cfg=x86std t=3600 role=generic-8lane-count], 81,
+inst!(g8_one_count, [props=C07 xprops=C05+C14 tier=thorough cfg=x86std t=3600 role=generic-8lane-count], 81,
     generic::count::<8, 87>(80));
 
 // ---------------------------------------------------------------------------
@@ -268,25 +268,25 @@ pub mod swar {
 
 inst!(swar_one_find, [props=C01+C05+C14 tier=quick cfg=x86std+generic t=900 role=swar-find uw=One::find_raw.0:4;byte_by_byte:18], 18,
     swar::find::<39>(1, false, 32));
-inst!(swar_two_find, [props=C01+C05+C14 tier=quick cfg=x86std+generic t=900 role=swar-find uw=Two::find_raw.0:4;byte_by_byte:10], 10,
+inst!(swar_two_find, [props=C01 xprops=C05+C14 tier=quick cfg=x86std+generic t=900 role=swar-find uw=Two::find_raw.0:4;byte_by_byte:10], 10,
     swar::find::<31>(2, false, 24));
-inst!(swar_three_find, [props=C01+C05+C14 tier=quick cfg=x86std+generic t=900 role=swar-find uw=Three::find_raw.0:4;byte_by_byte:10], 10,
+inst!(swar_three_find, [props=C01 xprops=C05+C14 tier=quick cfg=x86std+generic t=900 role=swar-find uw=Three::find_raw.0:4;byte_by_byte:10], 10,
     swar::find::<31>(3, false, 24));
-inst!(swar_one_rfind, [props=C02+C05+C14 tier=quick cfg=x86std+generic t=900 role=swar-rfind uw=One::rfind_raw.0:4;byte_by_byte:18], 18,
+inst!(swar_one_rfind, [props=C02+C05 xprops=C14 tier=quick cfg=x86std+generic t=900 role=swar-rfind uw=One::rfind_raw.0:4;byte_by_byte:18], 18,
     swar::find::<39>(1, true, 32));
-inst!(swar_two_rfind, [props=C02+C05+C14 tier=quick cfg=x86std+generic t=900 role=swar-rfind uw=Two::rfind_raw.0:4;byte_by_byte:10], 10,
+inst!(swar_two_rfind, [props=C02 xprops=C05+C14 tier=quick cfg=x86std+generic t=900 role=swar-rfind uw=Two::rfind_raw.0:4;byte_by_byte:10], 10,
     swar::find::<31>(2, true, 24));
-inst!(swar_three_rfind, [props=C02+C05+C14 tier=quick cfg=x86std+generic t=900 role=swar-rfind uw=Three::rfind_raw.0:4;byte_by_byte:10], 10,
+inst!(swar_three_rfind, [props=C02 xprops=C05+C14 tier=quick cfg=x86std+generic t=900 role=swar-rfind uw=Three::rfind_raw.0:4;byte_by_byte:10], 10,
     swar::find::<31>(3, true, 24));
 inst!(swar_one_raw, [props=C01+C05+C14 tier=quick cfg=x86std t=900 role=swar-raw uw=One::find_raw.0:3;byte_by_byte:18], 18,
     swar::raw::<20>(1, false));
-inst!(swar_one_rraw, [props=C02+C05+C14 tier=quick cfg=x86std t=900 role=swar-raw uw=One::rfind_raw.0:3;byte_by_byte:18], 18,
+inst!(swar_one_rraw, [props=C02 xprops=C05+C14 tier=quick cfg=x86std t=900 role=swar-raw uw=One::rfind_raw.0:3;byte_by_byte:18], 18,
     swar::raw::<20>(1, true));
-inst!(swar_three_raw, [props=C01+C05+C14 tier=thorough cfg=x86std t=900 role=swar-raw], 10,
+inst!(swar_three_raw, [props=C01 xprops=C05+C14 tier=thorough cfg=x86std t=900 role=swar-raw], 10,
     swar::raw::<20>(3, false));
-inst!(swar_two_rraw, [props=C02+C05+C14 tier=thorough cfg=x86std t=900 role=swar-raw], 10,
+inst!(swar_two_rraw, [props=C02 xprops=C05+C14 tier=thorough cfg=x86std t=900 role=swar-raw], 10,
     swar::raw::<20>(2, true));
-inst!(swar_one_count, [props=C07+C05+C14 tier=quick cfg=x86std+generic t=900 role=swar-count], 26,
+inst!(swar_one_count, [props=C07 xprops=C05+C14 tier=quick cfg=x86std+generic t=900 role=swar-count], 26,
     swar::count::<31>(24));
 
 // ---------------------------------------------------------------------------
@@ -455,68 +455,158 @@ pub mod x86 {
 }
 
 #[cfg(any(vcfg_x86std, vcfg_x86none, vcfg_x86alloc, vcfg_x86avx2, vcfg_x86rel))]
-inst!(sse2_one_find, [props=C01+C05+C14 tier=quick cfg=x86std t=1500 role=sse2-find uw=find_raw.0:2;find_raw.1:4;byte_by_byte:17], 17,
+inst!(sse2_one_find, [props=C01+C05 xprops=C14 tier=quick cfg=x86std+x86none t=1500 role=sse2-find uw=find_raw.0:2;find_raw.1:4;byte_by_byte:17], 3,
     x86::find::<55>(0, 1, false, 0, 40, 16));
 #[cfg(any(vcfg_x86std, vcfg_x86none, vcfg_x86alloc, vcfg_x86avx2, vcfg_x86rel))]
-inst!(avx2_one_find, [props=C01+C05+C14 tier=quick cfg=x86std t=1800 role=avx2-find uw=find_raw.0:2;find_raw.1:4;byte_by_byte:17], 17,
+inst!(avx2_one_find_28_36, [props=C01 xprops=C05+C14 tier=quick cfg=x86std t=1800 role=avx2-find uw=find_raw.0:2;find_raw.1:3;byte_by_byte:17], 3,
+    x86::find::<67>(1, 1, false, 28, 36, 32));
+#[cfg(any(vcfg_x86std, vcfg_x86none, vcfg_x86alloc, vcfg_x86avx2, vcfg_x86rel))]
+inst!(avx2_one_find_70, [props=C01 xprops=C05+C14 tier=thorough cfg=x86std t=5400 role=avx2-find uw=find_raw.0:2;find_raw.1:4;byte_by_byte:17], 3,
     x86::find::<101>(1, 1, false, 0, 70, 32));
 #[cfg(any(vcfg_x86std, vcfg_x86none, vcfg_x86alloc, vcfg_x86avx2, vcfg_x86rel))]
-inst!(sse2_one_rfind, [props=C02+C05+C14 tier=quick cfg=x86std t=1500 role=sse2-rfind uw=rfind_raw.0:2;rfind_raw.1:4;byte_by_byte:17], 17,
+inst!(sse2_one_find_len64, [props=C01 xprops=C05+C14 tier=thorough cfg=x86std t=5400 role=sse2-find-long uw=find_raw.0:4;find_raw.1:5;byte_by_byte:17], 3,
+    x86::find_fixed::<64, 79>(0, 1, false, 16));
+#[cfg(any(vcfg_x86std, vcfg_x86none, vcfg_x86alloc, vcfg_x86avx2, vcfg_x86rel))]
+inst!(sse2_one_find_len80, [props=C01 xprops=C05+C14 tier=thorough cfg=x86std t=5400 role=sse2-find-long uw=find_raw.0:4;find_raw.1:5;byte_by_byte:17], 3,
+    x86::find_fixed::<80, 95>(0, 1, false, 16));
+#[cfg(any(vcfg_x86std, vcfg_x86none, vcfg_x86alloc, vcfg_x86avx2, vcfg_x86rel))]
+inst!(sse2_one_find_len143, [props=C01 xprops=C05+C14 tier=thorough cfg=x86std t=5400 role=sse2-find-long uw=find_raw.0:4;find_raw.1:5;byte_by_byte:17], 3,
+    x86::find_fixed::<143, 158>(0, 1, false, 16));
+#[cfg(any(vcfg_x86std, vcfg_x86none, vcfg_x86alloc, vcfg_x86avx2, vcfg_x86rel))]
+inst!(sse2_one_find_len144, [props=C01 xprops=C05+C14 tier=thorough cfg=x86std t=5400 role=sse2-find-long uw=find_raw.0:4;find_raw.1:5;byte_by_byte:17], 3,
+    x86::find_fixed::<144, 159>(0, 1, false, 16));
+#[cfg(any(vcfg_x86std, vcfg_x86none, vcfg_x86alloc, vcfg_x86avx2, vcfg_x86rel))]
+inst!(avx2_one_find_len128, [props=C01 xprops=C05+C14 tier=thorough cfg=x86std t=7200 role=avx2-find-long uw=find_raw.0:4;find_raw.1:5;byte_by_byte:17], 3,
+    x86::find_fixed::<128, 159>(1, 1, false, 32));
+#[cfg(any(vcfg_x86std, vcfg_x86none, vcfg_x86alloc, vcfg_x86avx2, vcfg_x86rel))]
+inst!(avx2_one_find_len160, [props=C01 xprops=C05+C14 tier=thorough cfg=x86std t=7200 role=avx2-find-long uw=find_raw.0:4;find_raw.1:5;byte_by_byte:17], 3,
+    x86::find_fixed::<160, 191>(1, 1, false, 32));
+#[cfg(any(vcfg_x86std, vcfg_x86none, vcfg_x86alloc, vcfg_x86avx2, vcfg_x86rel))]
+inst!(avx2_one_find_len287, [props=C01 xprops=C05+C14 tier=thorough cfg=x86std t=7200 role=avx2-find-long uw=find_raw.0:4;find_raw.1:5;byte_by_byte:17], 3,
+    x86::find_fixed::<287, 318>(1, 1, false, 32));
+#[cfg(any(vcfg_x86std, vcfg_x86none, vcfg_x86alloc, vcfg_x86avx2, vcfg_x86rel))]
+inst!(sse2_one_rfind, [props=C02+C05 xprops=C14 tier=quick cfg=x86std+x86none t=1500 role=sse2-rfind uw=rfind_raw.0:2;rfind_raw.1:4;byte_by_byte:17], 3,
     x86::find::<55>(0, 1, true, 0, 40, 16));
 #[cfg(any(vcfg_x86std, vcfg_x86none, vcfg_x86alloc, vcfg_x86avx2, vcfg_x86rel))]
-inst!(avx2_one_rfind, [props=C02+C05+C14 tier=quick cfg=x86std t=1800 role=avx2-rfind uw=rfind_raw.0:2;rfind_raw.1:4;byte_by_byte:17], 17,
+inst!(avx2_one_rfind_28_36, [props=C02 xprops=C05+C14 tier=quick cfg=x86std t=1800 role=avx2-rfind uw=rfind_raw.0:2;rfind_raw.1:3;byte_by_byte:17], 3,
+    x86::find::<67>(1, 1, true, 28, 36, 32));
+#[cfg(any(vcfg_x86std, vcfg_x86none, vcfg_x86alloc, vcfg_x86avx2, vcfg_x86rel))]
+inst!(avx2_one_rfind_70, [props=C02 xprops=C05+C14 tier=thorough cfg=x86std t=5400 role=avx2-rfind uw=rfind_raw.0:2;rfind_raw.1:4;byte_by_byte:17], 3,
     x86::find::<101>(1, 1, true, 0, 70, 32));
 #[cfg(any(vcfg_x86std, vcfg_x86none, vcfg_x86alloc, vcfg_x86avx2, vcfg_x86rel))]
-inst!(sse2_two_find, [props=C01+C05+C14 tier=quick cfg=x86std t=1500 role=sse2-find uw=find_raw.0:2;find_raw.1:4;byte_by_byte:17], 17,
+inst!(sse2_one_rfind_len64, [props=C02 xprops=C05+C14 tier=thorough cfg=x86std t=5400 role=sse2-rfind-long uw=rfind_raw.0:4;rfind_raw.1:5;byte_by_byte:17], 3,
+    x86::find_fixed::<64, 79>(0, 1, true, 16));
+#[cfg(any(vcfg_x86std, vcfg_x86none, vcfg_x86alloc, vcfg_x86avx2, vcfg_x86rel))]
+inst!(sse2_one_rfind_len80, [props=C02 xprops=C05+C14 tier=thorough cfg=x86std t=5400 role=sse2-rfind-long uw=rfind_raw.0:4;rfind_raw.1:5;byte_by_byte:17], 3,
+    x86::find_fixed::<80, 95>(0, 1, true, 16));
+#[cfg(any(vcfg_x86std, vcfg_x86none, vcfg_x86alloc, vcfg_x86avx2, vcfg_x86rel))]
+inst!(sse2_one_rfind_len143, [props=C02 xprops=C05+C14 tier=thorough cfg=x86std t=5400 role=sse2-rfind-long uw=rfind_raw.0:4;rfind_raw.1:5;byte_by_byte:17], 3,
+    x86::find_fixed::<143, 158>(0, 1, true, 16));
+#[cfg(any(vcfg_x86std, vcfg_x86none, vcfg_x86alloc, vcfg_x86avx2, vcfg_x86rel))]
+inst!(sse2_one_rfind_len144, [props=C02 xprops=C05+C14 tier=thorough cfg=x86std t=5400 role=sse2-rfind-long uw=rfind_raw.0:4;rfind_raw.1:5;byte_by_byte:17], 3,
+    x86::find_fixed::<144, 159>(0, 1, true, 16));
+#[cfg(any(vcfg_x86std, vcfg_x86none, vcfg_x86alloc, vcfg_x86avx2, vcfg_x86rel))]
+inst!(avx2_one_rfind_len128, [props=C02 xprops=C05+C14 tier=thorough cfg=x86std t=7200 role=avx2-rfind-long uw=rfind_raw.0:4;rfind_raw.1:5;byte_by_byte:17], 3,
+    x86::find_fixed::<128, 159>(1, 1, true, 32));
+#[cfg(any(vcfg_x86std, vcfg_x86none, vcfg_x86alloc, vcfg_x86avx2, vcfg_x86rel))]
+inst!(avx2_one_rfind_len160, [props=C02 xprops=C05+C14 tier=thorough cfg=x86std t=7200 role=avx2-rfind-long uw=rfind_raw.0:4;rfind_raw.1:5;byte_by_byte:17], 3,
+    x86::find_fixed::<160, 191>(1, 1, true, 32));
+#[cfg(any(vcfg_x86std, vcfg_x86none, vcfg_x86alloc, vcfg_x86avx2, vcfg_x86rel))]
+inst!(avx2_one_rfind_len287, [props=C02 xprops=C05+C14 tier=thorough cfg=x86std t=7200 role=avx2-rfind-long uw=rfind_raw.0:4;rfind_raw.1:5;byte_by_byte:17], 3,
+    x86::find_fixed::<287, 318>(1, 1, true, 32));
+#[cfg(any(vcfg_x86std, vcfg_x86none, vcfg_x86alloc, vcfg_x86avx2, vcfg_x86rel))]
+inst!(sse2_two_find, [props=C01 xprops=C05+C14 tier=thorough cfg=x86std t=1500 role=sse2-find uw=find_raw.0:2;find_raw.1:4;byte_by_byte:17], 3,
     x86::find::<55>(0, 2, false, 0, 40, 16));
 #[cfg(any(vcfg_x86std, vcfg_x86none, vcfg_x86alloc, vcfg_x86avx2, vcfg_x86rel))]
-inst!(avx2_two_find, [props=C01+C05+C14 tier=quick cfg=x86std t=1800 role=avx2-find uw=find_raw.0:2;find_raw.1:4;byte_by_byte:17], 17,
+inst!(avx2_two_find_28_36, [props=C01 xprops=C05+C14 tier=thorough cfg=x86std t=1800 role=avx2-find uw=find_raw.0:2;find_raw.1:3;byte_by_byte:17], 3,
+    x86::find::<67>(1, 2, false, 28, 36, 32));
+#[cfg(any(vcfg_x86std, vcfg_x86none, vcfg_x86alloc, vcfg_x86avx2, vcfg_x86rel))]
+inst!(avx2_two_find_70, [props=C01 xprops=C05+C14 tier=thorough cfg=x86std t=5400 role=avx2-find uw=find_raw.0:2;find_raw.1:4;byte_by_byte:17], 3,
     x86::find::<101>(1, 2, false, 0, 70, 32));
 #[cfg(any(vcfg_x86std, vcfg_x86none, vcfg_x86alloc, vcfg_x86avx2, vcfg_x86rel))]
-inst!(sse2_two_rfind, [props=C02+C05+C14 tier=quick cfg=x86std t=1500 role=sse2-rfind uw=rfind_raw.0:2;rfind_raw.1:4;byte_by_byte:17], 17,
+inst!(sse2_two_find_len80, [props=C01 xprops=C05+C14 tier=thorough cfg=x86std t=5400 role=sse2-find-long uw=find_raw.0:4;find_raw.1:5;byte_by_byte:17], 3,
+    x86::find_fixed::<80, 95>(0, 2, false, 16));
+#[cfg(any(vcfg_x86std, vcfg_x86none, vcfg_x86alloc, vcfg_x86avx2, vcfg_x86rel))]
+inst!(sse2_two_find_len144, [props=C01 xprops=C05+C14 tier=thorough cfg=x86std t=5400 role=sse2-find-long uw=find_raw.0:4;find_raw.1:5;byte_by_byte:17], 3,
+    x86::find_fixed::<144, 159>(0, 2, false, 16));
+#[cfg(any(vcfg_x86std, vcfg_x86none, vcfg_x86alloc, vcfg_x86avx2, vcfg_x86rel))]
+inst!(sse2_two_rfind, [props=C02 xprops=C05+C14 tier=thorough cfg=x86std t=1500 role=sse2-rfind uw=rfind_raw.0:2;rfind_raw.1:4;byte_by_byte:17], 3,
     x86::find::<55>(0, 2, true, 0, 40, 16));
 #[cfg(any(vcfg_x86std, vcfg_x86none, vcfg_x86alloc, vcfg_x86avx2, vcfg_x86rel))]
-inst!(avx2_two_rfind, [props=C02+C05+C14 tier=quick cfg=x86std t=1800 role=avx2-rfind uw=rfind_raw.0:2;rfind_raw.1:4;byte_by_byte:17], 17,
+inst!(avx2_two_rfind_28_36, [props=C02 xprops=C05+C14 tier=thorough cfg=x86std t=1800 role=avx2-rfind uw=rfind_raw.0:2;rfind_raw.1:3;byte_by_byte:17], 3,
+    x86::find::<67>(1, 2, true, 28, 36, 32));
+#[cfg(any(vcfg_x86std, vcfg_x86none, vcfg_x86alloc, vcfg_x86avx2, vcfg_x86rel))]
+inst!(avx2_two_rfind_70, [props=C02 xprops=C05+C14 tier=thorough cfg=x86std t=5400 role=avx2-rfind uw=rfind_raw.0:2;rfind_raw.1:4;byte_by_byte:17], 3,
     x86::find::<101>(1, 2, true, 0, 70, 32));
 #[cfg(any(vcfg_x86std, vcfg_x86none, vcfg_x86alloc, vcfg_x86avx2, vcfg_x86rel))]
-inst!(sse2_three_find, [props=C01+C05+C14 tier=quick cfg=x86std t=1500 role=sse2-find uw=find_raw.0:2;find_raw.1:4;byte_by_byte:17], 17,
+inst!(sse2_two_rfind_len80, [props=C02 xprops=C05+C14 tier=thorough cfg=x86std t=5400 role=sse2-rfind-long uw=rfind_raw.0:4;rfind_raw.1:5;byte_by_byte:17], 3,
+    x86::find_fixed::<80, 95>(0, 2, true, 16));
+#[cfg(any(vcfg_x86std, vcfg_x86none, vcfg_x86alloc, vcfg_x86avx2, vcfg_x86rel))]
+inst!(sse2_two_rfind_len144, [props=C02 xprops=C05+C14 tier=thorough cfg=x86std t=5400 role=sse2-rfind-long uw=rfind_raw.0:4;rfind_raw.1:5;byte_by_byte:17], 3,
+    x86::find_fixed::<144, 159>(0, 2, true, 16));
+#[cfg(any(vcfg_x86std, vcfg_x86none, vcfg_x86alloc, vcfg_x86avx2, vcfg_x86rel))]
+inst!(sse2_three_find, [props=C01 xprops=C05+C14 tier=quick cfg=x86std t=1500 role=sse2-find uw=find_raw.0:2;find_raw.1:4;byte_by_byte:17], 3,
     x86::find::<55>(0, 3, false, 0, 40, 16));
 #[cfg(any(vcfg_x86std, vcfg_x86none, vcfg_x86alloc, vcfg_x86avx2, vcfg_x86rel))]
-inst!(avx2_three_find, [props=C01+C05+C14 tier=quick cfg=x86std t=1800 role=avx2-find uw=find_raw.0:2;find_raw.1:4;byte_by_byte:17], 17,
+inst!(avx2_three_find_28_36, [props=C01 xprops=C05+C14 tier=thorough cfg=x86std t=1800 role=avx2-find uw=find_raw.0:2;find_raw.1:3;byte_by_byte:17], 3,
+    x86::find::<67>(1, 3, false, 28, 36, 32));
+#[cfg(any(vcfg_x86std, vcfg_x86none, vcfg_x86alloc, vcfg_x86avx2, vcfg_x86rel))]
+inst!(avx2_three_find_70, [props=C01 xprops=C05+C14 tier=thorough cfg=x86std t=5400 role=avx2-find uw=find_raw.0:2;find_raw.1:4;byte_by_byte:17], 3,
     x86::find::<101>(1, 3, false, 0, 70, 32));
 #[cfg(any(vcfg_x86std, vcfg_x86none, vcfg_x86alloc, vcfg_x86avx2, vcfg_x86rel))]
-inst!(sse2_three_rfind, [props=C02+C05+C14 tier=quick cfg=x86std t=1500 role=sse2-rfind uw=rfind_raw.0:2;rfind_raw.1:4;byte_by_byte:17], 17,
+inst!(sse2_three_find_len80, [props=C01 xprops=C05+C14 tier=thorough cfg=x86std t=5400 role=sse2-find-long uw=find_raw.0:4;find_raw.1:5;byte_by_byte:17], 3,
+    x86::find_fixed::<80, 95>(0, 3, false, 16));
+#[cfg(any(vcfg_x86std, vcfg_x86none, vcfg_x86alloc, vcfg_x86avx2, vcfg_x86rel))]
+inst!(sse2_three_find_len144, [props=C01 xprops=C05+C14 tier=thorough cfg=x86std t=5400 role=sse2-find-long uw=find_raw.0:4;find_raw.1:5;byte_by_byte:17], 3,
+    x86::find_fixed::<144, 159>(0, 3, false, 16));
+#[cfg(any(vcfg_x86std, vcfg_x86none, vcfg_x86alloc, vcfg_x86avx2, vcfg_x86rel))]
+inst!(sse2_three_rfind, [props=C02 xprops=C05+C14 tier=quick cfg=x86std t=1500 role=sse2-rfind uw=rfind_raw.0:2;rfind_raw.1:4;byte_by_byte:17], 3,
     x86::find::<55>(0, 3, true, 0, 40, 16));
 #[cfg(any(vcfg_x86std, vcfg_x86none, vcfg_x86alloc, vcfg_x86avx2, vcfg_x86rel))]
-inst!(avx2_three_rfind, [props=C02+C05+C14 tier=quick cfg=x86std t=1800 role=avx2-rfind uw=rfind_raw.0:2;rfind_raw.1:4;byte_by_byte:17], 17,
+inst!(avx2_three_rfind_28_36, [props=C02 xprops=C05+C14 tier=thorough cfg=x86std t=1800 role=avx2-rfind uw=rfind_raw.0:2;rfind_raw.1:3;byte_by_byte:17], 3,
+    x86::find::<67>(1, 3, true, 28, 36, 32));
+#[cfg(any(vcfg_x86std, vcfg_x86none, vcfg_x86alloc, vcfg_x86avx2, vcfg_x86rel))]
+inst!(avx2_three_rfind_70, [props=C02 xprops=C05+C14 tier=thorough cfg=x86std t=5400 role=avx2-rfind uw=rfind_raw.0:2;rfind_raw.1:4;byte_by_byte:17], 3,
     x86::find::<101>(1, 3, true, 0, 70, 32));
 #[cfg(any(vcfg_x86std, vcfg_x86none, vcfg_x86alloc, vcfg_x86avx2, vcfg_x86rel))]
-inst!(sse2_one_raw, [props=C01+C05+C14 tier=quick cfg=x86std t=1500 role=sse2-raw uw=find_raw.0:2;find_raw.1:4;byte_by_byte:17], 17,
+inst!(sse2_three_rfind_len80, [props=C02 xprops=C05+C14 tier=thorough cfg=x86std t=5400 role=sse2-rfind-long uw=rfind_raw.0:4;rfind_raw.1:5;byte_by_byte:17], 3,
+    x86::find_fixed::<80, 95>(0, 3, true, 16));
+#[cfg(any(vcfg_x86std, vcfg_x86none, vcfg_x86alloc, vcfg_x86avx2, vcfg_x86rel))]
+inst!(sse2_three_rfind_len144, [props=C02 xprops=C05+C14 tier=thorough cfg=x86std t=5400 role=sse2-rfind-long uw=rfind_raw.0:4;rfind_raw.1:5;byte_by_byte:17], 3,
+    x86::find_fixed::<144, 159>(0, 3, true, 16));
+#[cfg(any(vcfg_x86std, vcfg_x86none, vcfg_x86alloc, vcfg_x86avx2, vcfg_x86rel))]
+inst!(sse2_one_raw, [props=C01+C14 xprops=C05 tier=quick cfg=x86std t=1800 role=sse2-raw uw=find_raw.0:2;find_raw.1:4;byte_by_byte:17], 3,
     x86::raw::<40>(0, 1, false));
 #[cfg(any(vcfg_x86std, vcfg_x86none, vcfg_x86alloc, vcfg_x86avx2, vcfg_x86rel))]
-inst!(sse2_one_rraw, [props=C02+C05+C14 tier=quick cfg=x86std t=1500 role=sse2-raw uw=rfind_raw.0:2;rfind_raw.1:4;byte_by_byte:17], 17,
+inst!(sse2_one_rraw, [props=C02 xprops=C05+C14 tier=quick cfg=x86std t=1800 role=sse2-raw uw=rfind_raw.0:2;rfind_raw.1:4;byte_by_byte:17], 3,
     x86::raw::<40>(0, 1, true));
 #[cfg(any(vcfg_x86std, vcfg_x86none, vcfg_x86alloc, vcfg_x86avx2, vcfg_x86rel))]
-inst!(sse2_three_raw, [props=C01+C05+C14 tier=thorough cfg=x86std t=1500 role=sse2-raw uw=find_raw.0:2;find_raw.1:4;byte_by_byte:17], 17,
+inst!(sse2_three_raw, [props=C01 xprops=C05+C14 tier=thorough cfg=x86std t=1800 role=sse2-raw uw=find_raw.0:2;find_raw.1:4;byte_by_byte:17], 3,
     x86::raw::<40>(0, 3, false));
 #[cfg(any(vcfg_x86std, vcfg_x86none, vcfg_x86alloc, vcfg_x86avx2, vcfg_x86rel))]
-inst!(sse2_three_rraw, [props=C02+C05+C14 tier=thorough cfg=x86std t=1500 role=sse2-raw uw=rfind_raw.0:2;rfind_raw.1:4;byte_by_byte:17], 17,
+inst!(sse2_three_rraw, [props=C02 xprops=C05+C14 tier=thorough cfg=x86std t=1800 role=sse2-raw uw=rfind_raw.0:2;rfind_raw.1:4;byte_by_byte:17], 3,
     x86::raw::<40>(0, 3, true));
 #[cfg(any(vcfg_x86std, vcfg_x86none, vcfg_x86alloc, vcfg_x86avx2, vcfg_x86rel))]
-inst!(avx2_one_raw, [props=C01+C05+C14 tier=quick cfg=x86std t=1500 role=avx2-raw uw=find_raw.0:2;find_raw.1:4;byte_by_byte:17], 17,
+inst!(avx2_one_raw, [props=C01 xprops=C05+C14 tier=thorough cfg=x86std t=1800 role=avx2-raw uw=find_raw.0:2;find_raw.1:4;byte_by_byte:17], 3,
     x86::raw::<40>(1, 1, false));
 #[cfg(any(vcfg_x86std, vcfg_x86none, vcfg_x86alloc, vcfg_x86avx2, vcfg_x86rel))]
-inst!(avx2_one_rraw, [props=C02+C05+C14 tier=quick cfg=x86std t=1500 role=avx2-raw uw=rfind_raw.0:2;rfind_raw.1:4;byte_by_byte:17], 17,
+inst!(avx2_one_rraw, [props=C02 xprops=C05+C14 tier=thorough cfg=x86std t=1800 role=avx2-raw uw=rfind_raw.0:2;rfind_raw.1:4;byte_by_byte:17], 3,
     x86::raw::<40>(1, 1, true));
 #[cfg(any(vcfg_x86std, vcfg_x86none, vcfg_x86alloc, vcfg_x86avx2, vcfg_x86rel))]
-inst!(avx2_three_raw, [props=C01+C05+C14 tier=thorough cfg=x86std t=1500 role=avx2-raw uw=find_raw.0:2;find_raw.1:4;byte_by_byte:17], 17,
+inst!(avx2_three_raw, [props=C01 xprops=C05+C14 tier=quick cfg=x86std t=1800 role=avx2-raw uw=find_raw.0:2;find_raw.1:4;byte_by_byte:17], 3,
     x86::raw::<40>(1, 3, false));
 #[cfg(any(vcfg_x86std, vcfg_x86none, vcfg_x86alloc, vcfg_x86avx2, vcfg_x86rel))]
-inst!(avx2_three_rraw, [props=C02+C05+C14 tier=thorough cfg=x86std t=1500 role=avx2-raw uw=rfind_raw.0:2;rfind_raw.1:4;byte_by_byte:17], 17,
+inst!(avx2_three_rraw, [props=C02 xprops=C05+C14 tier=thorough cfg=x86std t=1800 role=avx2-raw uw=rfind_raw.0:2;rfind_raw.1:4;byte_by_byte:17], 3,
     x86::raw::<40>(1, 3, true));
 #[cfg(any(vcfg_x86std, vcfg_x86none, vcfg_x86alloc, vcfg_x86avx2, vcfg_x86rel))]
-inst!(sse2_one_count, [props=C07+C05+C14 tier=quick cfg=x86std t=1500 role=sse2-count uw=count_raw.0:2;count_raw.1:4;byte_by_byte:17], 42,
-    x86::count::<55>(0, 0, 40, 16));
+inst!(sse2_one_count, [props=C07+C05 xprops=C14 tier=quick cfg=x86std t=1800 role=sse2-count uw=count_raw.0:2;count_raw.1:4;byte_by_byte:17;oracle::count:36], 3,
+    x86::count::<49>(0, 0, 34, 16));
 #[cfg(any(vcfg_x86std, vcfg_x86none, vcfg_x86alloc, vcfg_x86avx2, vcfg_x86rel))]
-inst!(avx2_one_count, [props=C07+C05+C14 tier=quick cfg=x86std t=1800 role=avx2-count uw=count_raw.0:2;count_raw.1:4;byte_by_byte:33], 72,
-    x86::count::<101>(1, 0, 70, 32));
+inst!(avx2_one_count_28_36, [props=C07 xprops=C05+C14 tier=quick cfg=x86std t=1800 role=avx2-count uw=count_raw.0:2;count_raw.1:3;byte_by_byte:33;oracle::count:38], 3,
+    x86::count::<67>(1, 28, 36, 32));
+#[cfg(any(vcfg_x86std, vcfg_x86none, vcfg_x86alloc, vcfg_x86avx2, vcfg_x86rel))]
+inst!(sse2_one_count_len80, [props=C07 xprops=C05+C14 tier=thorough cfg=x86std t=5400 role=sse2-count-long uw=count_raw.0:3;count_raw.1:5;byte_by_byte:17;oracle::count:82], 3,
+    x86::count_fixed::<80, 95>(0, 16));
+#[cfg(any(vcfg_x86std, vcfg_x86none, vcfg_x86alloc, vcfg_x86avx2, vcfg_x86rel))]
+inst!(avx2_one_count_len160, [props=C07 xprops=C05+C14 tier=thorough cfg=x86std t=7200 role=avx2-count-long uw=count_raw.0:3;count_raw.1:5;byte_by_byte:33;oracle::count:162], 3,
+    x86::count_fixed::<160, 191>(1, 32));
